@@ -518,3 +518,142 @@ func (n *Node) CheckAgainstLedger(l *refl.Ledger, ignoreExpirationOrder bool) er
 	}
 	return nil
 }
+
+// HistoryOf returns the ids a node at tn would report as its history (tip,
+// its nine predecessors, then exponentially spaced ancestors, ending in
+// genesis) - the shape documented for Manager.History; used to query
+// BlocksForHistory the way a peer on that chain would.
+func HistoryOf(tn *TNode) []types.BlockID {
+	var path []*TNode
+	for a := tn; a != nil; a = a.Parent {
+		path = append(path, a) // path[k] = ancestor k blocks back
+	}
+	var out []types.BlockID
+	off := 0
+	step := 1
+	for i := 0; off < len(path); i++ {
+		out = append(out, path[off].ID)
+		if i >= 9 {
+			step *= 2
+		}
+		off += step
+	}
+	if out[len(out)-1] != path[len(path)-1].ID {
+		out = append(out, path[len(path)-1].ID)
+	}
+	return out
+}
+
+// AuditQueries checks the chain-serving queries against the tree: History
+// (tip and its predecessors first, only best-chain ids, non-increasing
+// heights, reaching genesis), Headers (consecutive best-chain headers after an
+// index, exact remaining count, error off the best chain) and
+// BlocksForHistory (blocks after the first history entry that is on the best
+// chain).
+func (n *Node) AuditQueries(others []*TNode) error {
+	tipN := n.TipNode()
+	if tipN == nil {
+		return fmt.Errorf("queries: tip unknown")
+	}
+	best := tipN.PathFromGenesis()
+	best = append([]*TNode{n.Tree.Root}, best...) // best[h] = block at height h
+	onBest := map[types.BlockID]uint64{}
+	for h, b := range best {
+		onBest[b.ID] = uint64(h)
+	}
+	// History
+	hist, err := n.CM.History()
+	if err != nil {
+		return fmt.Errorf("queries: History failed: %v", err)
+	}
+	prev := uint64(len(best))
+	sawGenesis := false
+	for i, id := range hist {
+		if id == (types.BlockID{}) {
+			continue
+		}
+		h, ok := onBest[id]
+		if !ok {
+			return fmt.Errorf("queries: History[%d] = %v is not on the best chain", i, id)
+		}
+		if i < 10 && i < len(best) && h != uint64(len(best)-1-i) {
+			return fmt.Errorf("queries: History[%d] is at height %d, expected the block %d below the tip", i, h, i)
+		}
+		if h > prev {
+			return fmt.Errorf("queries: History heights increase at entry %d", i)
+		}
+		prev = h
+		if h == 0 {
+			sawGenesis = true
+		}
+	}
+	if !sawGenesis {
+		return fmt.Errorf("queries: History does not reach genesis")
+	}
+	// Headers
+	for h := 0; h < len(best); h++ {
+		for _, max := range []uint64{0, 1, 3, 1000} {
+			hs, rem, err := n.CM.Headers(best[h].Index(), max)
+			if err != nil {
+				return fmt.Errorf("queries: Headers(%v, %d) failed: %v", best[h].Index(), max, err)
+			}
+			want := uint64(len(best) - 1 - h)
+			if want > max {
+				want = max
+			}
+			if uint64(len(hs)) != want || rem != uint64(len(best)-1-h)-want {
+				return fmt.Errorf("queries: Headers(%v, %d) returned %d headers, %d remaining; expected %d and %d", best[h].Index(), max, len(hs), rem, want, uint64(len(best)-1-h)-want)
+			}
+			for k, bh := range hs {
+				if bh.ID() != best[h+1+k].ID {
+					return fmt.Errorf("queries: Headers(%v, %d)[%d] is %v, the best chain has %v there", best[h].Index(), max, k, bh.ID(), best[h+1+k].ID)
+				}
+			}
+		}
+	}
+	for _, o := range others {
+		if _, on := onBest[o.ID]; on || o.Ledger == nil {
+			continue
+		}
+		if _, _, err := n.CM.Headers(o.Index(), 3); err == nil {
+			return fmt.Errorf("queries: Headers(%v) succeeded for an index that is not on the best chain", o.Index())
+		}
+	}
+	// BlocksForHistory from the point of view of peers on other chains
+	views := append([]*TNode{tipN, n.Tree.Root}, others...)
+	for _, v := range views {
+		if v.Hdr.Index.ID != v.ID && v.Idx >= 0 && v.Ledger == nil && v.Parent == nil {
+			continue
+		}
+		history := HistoryOf(v)
+		attach := uint64(0)
+		for _, id := range history {
+			if _, known := n.CM.State(id); !known {
+				continue
+			}
+			if h, ok := onBest[id]; ok {
+				attach = h
+				break
+			}
+		}
+		for _, max := range []uint64{1, 4, 1000} {
+			blocks, rem, err := n.CM.BlocksForHistory(history, max)
+			if err != nil {
+				return fmt.Errorf("queries: BlocksForHistory(history of %v, %d) failed: %v", v.Index(), max, err)
+			}
+			want := uint64(len(best)-1) - attach
+			if want > max {
+				want = max
+			}
+			if uint64(len(blocks)) != want || rem != uint64(len(best)-1)-attach-want {
+				return fmt.Errorf("queries: BlocksForHistory(history of %v, %d) returned %d blocks, %d remaining; attach point is height %d, tip %d", v.Index(), max, len(blocks), rem, attach, len(best)-1)
+			}
+			for k, b := range blocks {
+				if b.ID() != best[attach+1+uint64(k)].ID {
+					return fmt.Errorf("queries: BlocksForHistory(history of %v)[%d] is not the best-chain block at height %d", v.Index(), k, attach+1+uint64(k))
+				}
+			}
+		}
+	}
+	return nil
+}
